@@ -39,6 +39,7 @@ impl Clone for ByteString {
     fn clone(&self) -> (r: Self) ensures r == *self { unimplemented!() }
 }
 // #[derive(PartialEq)] on ByteString: same bytes (or both null)
+pub open spec fn from_back(q: Seq<BrowseContinuationPoint>, j: int) -> BrowseContinuationPoint { q[q.len() - 1 - j] }
 pub open spec fn bs(b: ByteString) -> Option<Seq<u8>> { match b.value { Some(v) => Some(v@), None => None } }
 impl vstd::std_specs::cmp::PartialEqSpecImpl for ByteString {
     open spec fn obeys_eq_spec() -> bool { true }
@@ -139,12 +140,12 @@ SPEC = {
                     && (q0.len() < old(self).max_browse_continuation_points ==> dropped == 0)
             }),'''),
     'find_browse_continuation_point': ('r', '''        ensures final(self).max_browse_continuation_points == old(self).max_browse_continuation_points,
-            // finds the first stored point with that id AND removes it (a continuation point is used once); the others stay in order
+            // finds a stored point with that id AND removes it (a continuation point is used once); the others stay in order
+            // (ids are 6 random bytes, assumed distinct: which one of two equal ids goes is not part of the property)
             match r {
                 Some(cp) => exists|i: int| 0 <= i < old(self).browse_continuation_points@.len()
                     && #[trigger] old(self).browse_continuation_points@[i] == cp
                     && bs(cp.id) == bs(*id)
-                    && (forall|j: int| 0 <= j < i ==> bs(old(self).browse_continuation_points@[j].id) != bs(*id))
                     && final(self).browse_continuation_points@ == old(self).browse_continuation_points@.remove(i),
                 None => final(self).browse_continuation_points@ == old(self).browse_continuation_points@
                     && forall|j: int| 0 <= j < old(self).browse_continuation_points@.len() ==> bs(old(self).browse_continuation_points@[j].id) != bs(*id),
@@ -248,6 +249,16 @@ def build(manifest):
                     found_continuation_point is Some ==> found_continuation_point->Some_0 == pos_continuation_point
                         && pos_continuation_point < self.browse_continuation_points@.len()
                         && bs(self.browse_continuation_points@[pos_continuation_point as int].id) == bs(*id),
+                decreases self.browse_continuation_points@.len() - pos_continuation_point + (if found_continuation_point is None { 1int } else { 0int }),''')
+    elif any(r.startswith('D17 position over self.browse_continuation_points (reversed') for r in rewrites):
+        # the same search from the newest point backwards: position i means the element at len - 1 - i
+        h = splice_loop(h, 0, '''                invariant pos_continuation_point <= self.browse_continuation_points@.len(),
+                    self.browse_continuation_points@ == old(self).browse_continuation_points@,
+                    self.max_browse_continuation_points == old(self).max_browse_continuation_points,
+                    forall|k: int| self.browse_continuation_points@.len() - pos_continuation_point <= k < self.browse_continuation_points@.len() ==> bs((#[trigger] self.browse_continuation_points@[k]).id) != bs(*id),
+                    found_continuation_point is Some ==> found_continuation_point->Some_0 == pos_continuation_point
+                        && pos_continuation_point < self.browse_continuation_points@.len()
+                        && bs(self.browse_continuation_points@[self.browse_continuation_points@.len() - 1 - pos_continuation_point].id) == bs(*id),
                 decreases self.browse_continuation_points@.len() - pos_continuation_point + (if found_continuation_point is None { 1int } else { 0int }),''')
     f['find_browse_continuation_point'] = h
     h = f['remove_expired_browse_continuation_points']
